@@ -1,0 +1,3 @@
+// Package verifexport re-exports constructors of internal/mobius for the out-of-tree verification harness.
+// It is empty unless the build tag "verif" is set.
+package verifexport
